@@ -4,6 +4,8 @@ from mir import callee
 from common import controlling_edges, switch_expr, switch_meaning
 from rtc_common import *  # noqa: F401,F403
 
+THOROUGH_CONFIGS = ["full-codecs", "json-codec", "tests"]
+
 EXPLANATION = (
     "Static MIR rules over the expansion of #[remoc::rtc::remote] (witness crate; test traits in the thorough tier) and "
     "over remoc::rfn: R12.1 each received request is dispatched exactly once (no second dispatch reachable before the "
@@ -162,6 +164,44 @@ def r12_4(ck, F):
     ck.expect(n >= 6, "ServerSharedMut#dispatches", f"{n} dispatch sites", f"only {n} dispatch sites in ServerSharedMut", None)
 
 
+def r12_5(ck, F):
+    ck.rule("R12.5", "a call always gets an outcome: in the function-call clients (RFn / RFnMut try_call_int) the outcome of "
+            "queueing the request — which on failure carries the rejected request with the call's own result sender — is "
+            "dropped before the result is awaited",
+            "provider dropped, local clone called: the failed send's error keeps the call's result_tx alive, the result "
+            "channel can neither deliver nor close and the call hangs instead of returning CallError::Dropped", floor=2)
+    for fn in ("rfn::rfn_const::RFn::try_call_int", "rfn::rfn_mut::RFnMut::try_call_int"):
+        b = F.main_body(fn)
+        aw = b.awaits()
+        send = [a for a in aw if "mpsc::sender::Sender" in (a.get("fut_fn") or "") and "send" in (a.get("fut_fn") or "")]
+        res = [a for a in aw if "oneshot::receiver::Receiver" in a.get("fut_ty", "")]
+        if not send or not res:
+            raise mir.AnchorMissing(f"send / result awaits in {fn}")
+        # locals that hold the send outcome
+        holders = [i for i, l in enumerate(b.locals) if l["ty"].startswith("std::result::Result<rch::Sending<") or
+                   "SendError<rfn::RFnRequest" in l["ty"] and l["ty"].startswith("std::result::Result<")]
+        ok = bool(holders)
+        worst = None
+        for l in holders:
+            rel = b.moves_of(l)
+            defs = [d[1] for d in b.defs.get(l, [])]
+            if not defs:
+                continue
+            # from where the outcome is stored, the result await must not be reachable without releasing it;
+            # a temporary that is moved on into another holder is followed there
+            rel_eff = {x for x in rel if b.term(x)["t"] == "drop" or (b.term(x)["t"] == "call")}
+            movers = {x for x in rel if x not in rel_eff}
+            defs = [d for d in defs if d not in rel_eff and d not in movers]     # released by the defining block's own terminator
+            p = b.find_path(defs, [res[0]["poll_bb"]], avoid=rel_eff | movers, from_succ=True) if defs else None
+            if p is not None:
+                ok, worst = False, l
+        ck.expect(ok, fn.replace("rfn::", "") + "#send-outcome-dropped", "send outcome released before awaiting the result",
+                  f"the outcome of request_tx.send (local _{worst}: {b.local_ty(worst)[:60] if worst is not None else ''}) is still alive "
+                  f"while the result is awaited", b.loc(res[0]["yield_bb"]))
+
+
 def run(ck, F):
-    for r in (r12_1, r12_2, r12_3, r12_4):
+    import c19
+    for r in (r12_1, r12_2, r12_3, r12_4, r12_5):
         ck.run_rule(r)
+    ck.run_rule(c19.r19_1)      # #[no_cancel] is what makes a mutable method atomic w.r.t. an abandoned call
